@@ -135,7 +135,8 @@ func embeddedIn(n *types.Named, typ *types.TypeName, depth int) bool {
 	}
 	for i := 0; i < st.NumFields(); i++ {
 		f := st.Field(i)
-		if !f.Embedded() {
+		if !f.Embedded() && f.Exported() {
+			// (an unexported field holding an unexported struct by value is a part as well: `in byteSource`)
 			continue
 		}
 		en, ok := f.Type().(*types.Named)
@@ -160,7 +161,8 @@ func lenOfField(v ssa.Value, typ *types.TypeName, name string) bool {
 	}
 	b, ok := call.Common().Value.(*ssa.Builtin)
 	if !ok || b.Name() != "len" {
-		return false
+		// a method of the field's own type that returns the length (ext_x5.go)
+		return lenAccessorOfField(call, typ, name)
 	}
 	return isFieldLoad(call.Common().Args[0], typ, name)
 }
